@@ -258,6 +258,8 @@ type Body struct {
 	iterInfo map[*ssa.Range]*mapIter
 	depth    int
 	curBlock *ssa.BasicBlock
+	parent   *Body
+	tupleRefs []*T // Ref-sorted components of tuple values
 }
 
 type mapIter struct {
@@ -534,6 +536,9 @@ func (b *Body) declVal(v ssa.Value) *Val {
 			ft.declare(n, so)
 			ft.fact(ft.e.sorts.TypeFacts(L(n), tup.At(i).Type()))
 			x.Tuple = append(x.Tuple, &Val{T: L(n), Type: tup.At(i).Type()})
+			if so == "Ref" {
+				b.tupleRefs = append(b.tupleRefs, L(n))
+			}
 		}
 		b.vals[v] = x
 		return x
